@@ -537,6 +537,146 @@ pub fn run_one(seed: u64, enumerated: Option<(u64, u64)>, l: &mut Local) {
     monitor(&made, l);
 }
 
+// ---------------------------------------------------------------------------
+// Part R: real sockets
+//
+// Under simulation the run loop reads the scripted sockets itself; the code that turns the poller's events
+// into reads (and everything else between the operating system and `handle_read`) is only reached with real
+// sockets. One real daemon on a private port, its own multicast loop switched off so that nothing but our
+// datagrams can wake its sockets; API calls (which wake the daemon through its signal socket) are issued
+// right before an announcement is sent from a plain UDP socket. The announcement has reached the daemon:
+// it is found and resolved without waiting for the next datagram. Judged only if a control announcement
+// gets through at all; a miss counts only if the very next unrelated datagram makes the instance appear
+// (the records had been sitting in the socket), anything else is inconclusive.
+
+pub fn real_socket_part(report: &Report, seed: u64, rounds: u64) {
+    use mdns_sd::{ServiceDaemon, ServiceEvent};
+    use std::net::UdpSocket;
+    use std::time::{Duration, Instant};
+    let not_run = |why: String| {
+        println!("NOTE property=C04 the real-socket part was not run: {why}");
+        report.extra("real_sockets", json!({"status": "not run", "reason": why}));
+    };
+    let port = 21000 + (seed % 2000) as u16;
+    let daemon = match ServiceDaemon::new_with_port(port) {
+        Ok(d) => d,
+        Err(e) => return not_run(format!("cannot create a daemon on port {port}: {e}")),
+    };
+    let finish = |d: &ServiceDaemon| {
+        if let Ok(rx) = d.shutdown() {
+            let _ = rx.recv_timeout(Duration::from_secs(5));
+        }
+    };
+    let _ = daemon.set_multicast_loop_v4(false);
+    let _ = daemon.set_multicast_loop_v6(false);
+    let ty = "_c04real._udp.local.";
+    let Ok(sock) = UdpSocket::bind("0.0.0.0:0") else {
+        finish(&daemon);
+        return not_run("cannot bind a UDP socket".into());
+    };
+    let dest = format!("224.0.0.251:{port}");
+    // an address next to ours on the interface multicast leaves by (the instance needs one in the link's subnet)
+    let local = UdpSocket::bind("0.0.0.0:0").and_then(|s| s.connect(&dest).and_then(|_| s.local_addr())).ok();
+    let Some(std::net::SocketAddr::V4(local)) = local else {
+        finish(&daemon);
+        return not_run("no IPv4 route for multicast".into());
+    };
+    let mut neighbour = local.ip().octets();
+    neighbour[3] = if neighbour[3] < 250 { neighbour[3] + 1 } else { neighbour[3] - 1 };
+    let Ok(rx) = daemon.browse(ty) else {
+        finish(&daemon);
+        return not_run("browse refused".into());
+    };
+    std::thread::sleep(Duration::from_millis(300));
+    let announce = |label: &str| {
+        let s = Svc::new(ty, label, &format!("{label}-host.local"), neighbour);
+        let data = wire::encode(&s.announce(), wire::Compression::Max);
+        let _ = sock.send_to(&data, &dest);
+        s.fullname()
+    };
+    let wait_resolved = |full: &str, limit: Duration| -> Option<Duration> {
+        let start = Instant::now();
+        while start.elapsed() < limit {
+            match rx.recv_timeout(Duration::from_millis(50)) {
+                Ok(ServiceEvent::ServiceResolved(r)) if r.fullname == full => return Some(start.elapsed()),
+                Ok(_) => {}
+                Err(flume::RecvTimeoutError::Timeout) => {}
+                Err(flume::RecvTimeoutError::Disconnected) => return None,
+            }
+        }
+        None
+    };
+    // control: does a datagram of ours reach the daemon at all?
+    let ctl = announce("control");
+    if wait_resolved(&ctl, Duration::from_secs(6)).is_none() {
+        finish(&daemon);
+        return not_run("a control announcement sent to the daemon's port did not get it to resolve the instance: real multicast is not usable here".into());
+    }
+    let mut l = Local::default();
+    let mut slowest = Duration::ZERO;
+    let mut sat_unread = Vec::new();
+    let mut lost = 0u64;
+    for k in 0..rounds {
+        // wake the daemon through its signal socket, then let the records arrive
+        // (in two rounds of three a second thread keeps calling while the datagram comes in, so that a round of
+        // the poller reports the signal socket and the mDNS socket together)
+        let stop = std::sync::Arc::new(std::sync::atomic::AtomicBool::new(false));
+        let caller = if k % 3 != 0 {
+            let (d, stop) = (daemon.clone(), stop.clone());
+            Some(std::thread::spawn(move || {
+                let mut n = 0u64;
+                while !stop.load(std::sync::atomic::Ordering::Relaxed) && n < 2_000_000 {
+                    let _ = d.status();
+                    n += 1;
+                }
+            }))
+        } else {
+            let _ = daemon.status();
+            None
+        };
+        if caller.is_some() {
+            std::thread::sleep(Duration::from_millis(2));
+        }
+        let full = announce(&format!("inst{k}"));
+        l.act("F1-real");
+        let early = wait_resolved(&full, Duration::from_millis(1500));
+        stop.store(true, std::sync::atomic::Ordering::Relaxed);
+        if let Some(c) = caller {
+            let _ = c.join();
+        }
+        match early.or_else(|| wait_resolved(&full, Duration::from_millis(4500)).map(|d| d + Duration::from_millis(1500))) {
+            Some(d) => slowest = slowest.max(d),
+            None => {
+                // an unrelated datagram: if the instance appears now, its records had been sitting in the socket
+                let mut m = Message::response();
+                m.answers.push(wire::a(&wire::name("bystander.local"), 120, neighbour));
+                let _ = sock.send_to(&wire::encode(&m, wire::Compression::None), &dest);
+                if wait_resolved(&full, Duration::from_secs(3)).is_some() {
+                    sat_unread.push(k);
+                } else {
+                    lost += 1;
+                }
+            }
+        }
+    }
+    finish(&daemon);
+    if lost > 0 {
+        l.inconclusive.push(format!("real-socket part: {lost} announcements never led to a resolution, not even after the next datagram (lost on the way?)"));
+    }
+    if !sat_unread.is_empty() {
+        l.violate(
+            Violation::new(
+                "F1",
+                "F1/real/records-arrived-but-not-acted-on-until-the-next-datagram",
+                format!("in {} of {rounds} rounds an announcement sent right after an API call was not resolved within 6 s, and was resolved as soon as an unrelated datagram arrived: its records had reached the daemon's socket and were left there", sat_unread.len()),
+            )
+            .with(json!({"rounds": sat_unread, "port": port})),
+        );
+    }
+    report.extra("real_sockets", json!({"status": "run", "rounds": rounds, "resolved_at_once": rounds - lost - sat_unread.len() as u64, "slowest_ms": slowest.as_millis() as u64, "left_unread_until_next_datagram": sat_unread.len(), "never_resolved": lost}));
+    report.merge(l);
+}
+
 pub fn run(report: &Report, tier: &Tier) {
     report.set_rule(
         "delivery scenarios: the 4..7 records of an instance (PTR, subtype PTR, SRV, TXT, 1..3 addresses) in every order and every split into \
@@ -569,4 +709,5 @@ pub fn run(report: &Report, tier: &Tier) {
     run_parallel(report, n2, threads(), tier.budget_s * 0.1, |i, l| {
         second_life_case(util::mix(seed, 0xC04_2000 + i), l);
     });
+    real_socket_part(report, seed, if tier.thorough { 200 } else { 25 });
 }
